@@ -49,7 +49,7 @@ VALUES = {
 EXCS = {
     0: ('ValueError', [38]), 1: ('KeyError', ['k']), 2: ('RuntimeError', []), 3: ('CustomError', [1, 'two']),
     4: ('ZeroDivisionError', ['division by zero']), 5: ('KeyboardInterrupt', []), 6: ('CustomBase', ['b']),
-    7: ('OSError', [2, 'No such file']), 8: ('CustomError', ['x' * 70000]), 9: ('AssertionError', ['a']),
+    7: ('OSError', ['plain os error']), 8: ('CustomError', ['x' * 70000]), 9: ('AssertionError', ['a']),
     10: ('StopIteration', [5]), 11: ('GeneratorExit', []),
 }
 # sys.exit argument universe: id -> python value
@@ -150,9 +150,20 @@ def boundary_cases():
     return cases
 
 
+def heavy_log_case(rng, sig):
+    """the child is killed while it floods the log queue (its feeder thread is then most likely in
+    the middle of a pipe write, holding the queue's write lock)"""
+    order = list(ACCESSORS)
+    rng.shuffle(order)
+    return dict(kind='process', outcome=['ret', 1], kill=dict(phase='during', sig=sig), order=order, early=False,
+                flood=rng.choice([100, 5000, 200000]), seed=rng.randrange(1 << 30))
+
+
 def case_class(case):
     k = case.get('kill')
-    return f"{case['kind']}:{case['outcome'][0]}:{(k['phase'] + '-' + ('term' if k['sig'] == 15 else 'sig')) if k else 'nokill'}"
+    return (f"{case['kind']}:{case['outcome'][0]}:"
+            f"{(k['phase'] + '-' + ('term' if k['sig'] == 15 else 'sig')) if k else 'nokill'}"
+            f"{':flood' if case.get('flood') else ''}")
 
 
 def nontrivial(case, res):
@@ -303,7 +314,7 @@ def run_inner(script, case, outer_bound):
                 tail = f.read()[-1500:]
         except Exception:
             tail = ''
-        res = dict(infra=f'inner run produced no result (timed_out={timed_out}, rc={p.returncode}): {tail}')
+        res = dict(infra=f'inner run produced no result (timed_out={timed_out}, rc={p.returncode}, case={json.dumps(case)[:400]}): {tail}')
     res['wall'] = round(wall, 3)
     res['outer_timeout'] = timed_out
     try:
@@ -319,6 +330,12 @@ def run_case(case):
     res = run_inner(os.path.abspath(__file__), case, outer_bound=HANG_BOUND * 1.5 + 60)
     if res.get('infra'):
         res['infra_error'] = res['infra']
+        res.setdefault('monitors', [])
+        res.setdefault('events', [])
+        return res
+    want = os.path.realpath(_repo_src())
+    if not os.path.realpath(res.get('mpservice_file', '')).startswith(want):
+        res['infra_error'] = f"inner run imported mpservice from {res.get('mpservice_file')}, expected under {want}"
         res.setdefault('monitors', [])
         res.setdefault('events', [])
         return res
@@ -339,9 +356,11 @@ def model_lines(cid, case, res):
     k = case.get('kill')
     lines = [f'case {cid} kind={case["kind"]} outcome={o} kill={(k["phase"] + ":" + str(k["sig"])) if k else "none"}']
     for a, r in res.get('early_answers') or []:
+        if r == 'ret:n/a':
+            continue        # `exitcode` is not an accessor of Thread
         lines.append(f'early {a} {_model_form(case, r)}')
     for a, r in res.get('answers') or []:
-        if r == 'SKIPPED':
+        if r in ('SKIPPED', 'ret:n/a'):
             continue
         lines.append(f'ask {a} {_model_form(case, r)}')
     lines.append('end')
@@ -370,11 +389,17 @@ def _raise_here(cls, args):
     raise cls(*args)
 
 
-def target(spec, ready, after, phase):
+def target(spec, ready, after, phase, flood=0):
     """the worker's target: ends as `spec` says"""
     import threading
     if phase == 'during':
         ready.set()
+        if flood:
+            import logging
+            lg = logging.getLogger('flood')
+            msg = 'y' * flood
+            while True:
+                lg.warning(msg)
         time.sleep(600)
     if phase == 'after':
         def keeper():
@@ -397,11 +422,12 @@ def target(spec, ready, after, phase):
 
 
 spec_sig = [9]
+_KEEP = []
 
 
-def target_proc(spec, ready, after, phase, sig):
+def target_proc(spec, ready, after, phase, sig, flood=0):
     spec_sig[0] = sig
-    return target(spec, ready, after, phase)
+    return target(spec, ready, after, phase, flood)
 
 
 def _canon_value(case, v):
@@ -457,10 +483,13 @@ def _inner(case):
     phase = case['kill']['phase'] if case.get('kill') else None
     sig = case['kill']['sig'] if case.get('kill') else 9
     tbp = out['tb_problems']
+    if case.get('flood'):
+        import logging
+        logging.getLogger().addHandler(logging.NullHandler())
     if case['kind'] == 'process':
         ready, after = mpm.Event(), mpm.Event()
         w = mpm.Process(target=target_proc if not (case.get('early') and phase is None) else target_proc_go,
-                        args=(case['outcome'], ready, after, phase, sig))
+                        args=(case['outcome'], ready, after, phase, sig, case.get('flood', 0)))
         mod_wait, mod_asc = mpm.wait, mpm.as_completed
     else:
         ready, after = threading.Event(), threading.Event()
@@ -468,6 +497,8 @@ def _inner(case):
                        args=(case['outcome'], ready, after, phase))
         mod_wait, mod_asc = mpt.wait, mpt.as_completed
     w.start()
+    _KEEP.append(w)     # never let the worker object be finalized inside the measured run (its GC
+    #                     finalizer joins the logger thread; we leave through os._exit)
     out['t_start'] = round(time.time() - t0, 3)
 
     def nonblocking(a):
@@ -482,6 +513,8 @@ def _inner(case):
         if phase == 'during':
             if not ready.wait(60):
                 return dict(out, infra='child never became ready')
+            if case.get('flood'):
+                time.sleep(0.25)
         elif phase == 'after':
             if not after.wait(60):
                 return dict(out, infra='child never signalled that run() was left')
@@ -579,7 +612,7 @@ def target_go(spec, ready, after, phase):
     return target(spec, None, None, None)
 
 
-def target_proc_go(spec, ready, after, phase, sig):
+def target_proc_go(spec, ready, after, phase, sig, flood=0):
     return target_go(spec, ready, after, phase)
 
 
